@@ -6,10 +6,10 @@
 From AB Require Import Spec.Browser.
 Open Scope Z_scope.
 
-Record c15_case := { k_api : bool; k_redir : bytes; k_status : Z; k_loc : bytes; k_default : bytes }.
+Record c15_case := { k_api : bool; k_redir : bytes; k_status : Z; k_loc : bytes; k_default : bytes; k_suffix : bytes }.
 
 Definition c15_candidates (c : c15_case) : list bytes :=
-  let t := redirect_target (k_redir c) (k_default c) true in
+  let t := redirect_target (k_redir c) (k_default c) true ++ k_suffix c in
   if k_api c then [t] else [t; hex_escape_non_ascii t; http_redirect_rewrite t].
 
 Definition c15_check (id : Z) (c : c15_case) : list (Z * Z) :=
